@@ -18,7 +18,8 @@
      (unsigned) clock; if none and the ring is not full (nback < n-1): the ring
      start = first event of the stream; otherwise failure (-1).  The window
      [first, next) is sorted by qsort with cmp_ev, which compares the clocks
-     AS int64 ([skey]); qsort is modelled as a stable insertion sort (any two
+     as uint64 (since /repo commit f327c17; before: as int64, which made
+     ring_check die on clocks >= 2^63); qsort is modelled as a stable insertion sort (any two
      stable sorts agree; glibc qsort is a merge sort when the temporary array
      fits, which it does here - trusted, re-checked by the byte comparison).
      The sorted window is written back (pwrite + the private mapping showing it)
@@ -51,7 +52,7 @@ Definition starts_unsorted_region (e : ev) : bool :=
 Definition ends_unsorted_region (e : ev) : bool :=
   (emodel e =? 79) && (ecat e =? 85) && (evalue e =? 93).
 
-(* (int64_t) of a uint64 *)
+(* (int64_t) of a uint64: only the emulator's loader reads clocks this way *)
 Definition to_int64 (c : Z) : Z := if c <? 2 ^ 63 then c else c - 2 ^ 64.
 Definition skey (e : ev) : Z := to_int64 (clock e).
 
@@ -113,7 +114,7 @@ Definition exec_plan_r (n : nat) (k : nat) (rd : list ev) : plan_res :=
   | None => PlanNoDest
   | Some w =>
       let window := rev (firstn w rd) in
-      let sorted := isort_by skey window in
+      let sorted := isort_by clock window in
       let rd' := rev sorted ++ skipn w rd in
       if ring_check sorted then PlanOk rd' else PlanDie rd'
   end.
@@ -234,8 +235,10 @@ Definition prefix_untouched (l l' : list ev) : Prop :=
     (forall a b, In a A -> In b B -> clock a <= clock b) ->
     exists B', l' = A ++ B' /\ length B' = length B.
 
-(* clocks representable as int64 (the emulator and cmp_ev treat them as signed) *)
+(* clocks representable as int64 (only the emulator's loader needs this) *)
 Definition clk_ok (e : ev) : bool := (0 <=? clock e) && (clock e <? 2 ^ 63).
+(* a clock is a uint64 (representation invariant of the file format, not a restriction) *)
+Definition clk_u64 (e : ev) : bool := (0 <=? clock e) && (clock e <? 2 ^ 64).
 
 (* Look-back condition of one region, stated on the ORIGINAL stream:
    [before] = every event preceding the region body (the OU[ included),
@@ -253,12 +256,12 @@ Definition lookback_ok (n : nat) (before body : list ev) : bool :=
      body events may carry any clock not above the closing marker's;
    - every non-empty body satisfies [lookback_ok];
    - the stream does not end inside a region;
-   - all clocks fit int64. *)
+   - every clock is a uint64 (always true of a decoded file). *)
 Inductive pmode := PS | PR (s : ev) (rbody : list ev).
 Record pstate := mkp { p_before : list ev; p_last : Z; p_mode : pmode }.
 
 Definition pstep (n : nat) (p : pstate) (e : ev) : option pstate :=
-  if negb (clk_ok e) then None else
+  if negb (clk_u64 e) then None else
   match p_mode p with
   | PS =>
       if p_last p <=? clock e then
